@@ -121,7 +121,7 @@ pub fn gen_prog_with(rng: &mut Rng, long: bool, astral: bool) -> Prog {
     let mut lines: Vec<String> = vec![];
     let mut toks: Vec<Tok> = vec![];
     let mut orig = 0;
-    let mut mark = |toks: &mut Vec<Tok>, rng: &mut Rng, l: usize, c: u32, named: u64, orig: &mut u32| {
+    let mark = |toks: &mut Vec<Tok>, rng: &mut Rng, l: usize, c: u32, named: u64, orig: &mut u32| {
         if rng.chance(5, 6) {
             let name = if rng.chance(named, 100) {
                 *orig += 1;
